@@ -255,7 +255,7 @@ func lowOrderClassifier(c *an.Check) {
 	// ACCUMULATE: the verdict must depend on every byte compared: inside the comparison loops the accumulator cell's new
 	// value is computed from its old value (c[i] |= …), never overwritten (c[i] = …), otherwise only the last bytes count
 	nAcc, badAcc := 0, ""
-	for _, b := range lo.Blocks {
+	for _, b := range an.ScanBlocks(lo) {
 		if an.InnermostLoop(lo, b) == nil {
 			continue
 		}
@@ -445,7 +445,7 @@ func privateScalarProvenance(c *an.Check) {
 	ok, why := pk != nil, "unresolved anchor"
 	if pk != nil {
 		ok, why = false, "no hash Write of the key found"
-		for _, b := range pk.Blocks {
+		for _, b := range an.ScanBlocks(pk) {
 			for _, ins := range b.Instrs {
 				call, isCall := ins.(*ssa.Call)
 				if !isCall || !call.Call.IsInvoke() || call.Call.Method.Name() != "Write" {
@@ -472,7 +472,7 @@ func noUseAfterScrub(c *an.Check, fns []*ssa.Function, writeOnlyDst map[string]i
 		if fn == nil {
 			continue
 		}
-		for _, b := range fn.Blocks {
+		for _, b := range an.ScanBlocks(fn) {
 			for idx, ins := range b.Instrs {
 				sc, ok := ins.(*ssa.Call)
 				if !ok {
@@ -572,7 +572,7 @@ func scrubOwnStorage(c *an.Check, construct string, fns []*ssa.Function) int {
 		}
 		c.Touch(fn)
 		for _, g := range an.WithClosures(fn) {
-			for _, b := range g.Blocks {
+			for _, b := range an.ScanBlocks(g) {
 				for _, ins := range b.Instrs {
 					var cc *ssa.CallCommon
 					switch x := ins.(type) {
